@@ -5,12 +5,6 @@ tiling, under `CompValid` (pairwise non-intersecting valid selections).
 -/
 namespace Chewing.Conv
 
-theorem intersect_comm (a b : Interval) : a.intersect b = b.intersect a := by
-  simp only [Interval.intersect, Interval.intersectRange, Nat.max_comm a.start, Nat.min_comm a.stop]
-
-theorem intersect_eq_false {a b : Interval} : a.intersect b = false ↔ ¬ (max a.start b.start < min a.stop b.stop) := by
-  simp [Interval.intersect, Interval.intersectRange]
-
 /-- a list of non-empty intervals inside `[a, n)`, sorted by start, pairwise non-intersecting and covering
     every position of `[a, n)`, is a chain from `a` to `n` -/
 theorem chain_of_sorted_cover {l : List Interval} {a n : Nat}
